@@ -614,6 +614,11 @@ func (p *ReceiveForm) typecheckForm(gammaNameTypesCtx NamesTypesCtx, providerSha
 			return TypeErrorf("variable names <%s, %s> already defined. Use unique names", p.payload_c.String(), p.continuation_c.String())
 		}
 
+		if p.payload_c.Equal(p.continuation_c) {
+			// <x, x> <- recv w would silently discard the received payload
+			return TypeErrorf("variable names <%s, %s> are the same. Use unique names", p.payload_c.String(), p.continuation_c.String())
+		}
+
 		if isProvider(p.payload_c, providerShadowName) ||
 			isProvider(p.continuation_c, providerShadowName) {
 			// Unwanted reference to self
